@@ -1251,36 +1251,60 @@ fn first_set_diff_key<'a>(a: &'a str, b: &'a str) -> Option<&'a str> {
     sa.symmetric_difference(&sb).map(|l| key_of(l)).min()
 }
 
-/// PROTOCOL.md §4.1, `again_same`: prints the view dump like `dump_kind` (pass A) and hands
-/// back the value of the `again_same` key: pass B runs the same accessor steps a second time on
-/// the same parsed object, pass C runs them last-to-first on a freshly parsed one; both compared
-/// with pass A as sets of lines. `None` (no key) for more than `AGAIN_MAX_LEN` bytes.
-pub fn dump_kind_verdict(out: &mut Out, pfx: &str, kind: Kind, bytes: &[u8]) -> Option<String> {
+/// Passes A and B of `again_same` (PROTOCOL.md §4.1), waiting for pass C.
+pub struct PassAb {
+    a: String,
+    b: String,
+    b_skipped: bool,
+}
+
+/// PROTOCOL.md §4.1, `again_same`, first half: prints the view dump like `dump_kind` (pass A)
+/// and runs the same accessor steps a second time on the same parsed object (pass B). `None`
+/// (no `again_same` key, nothing to follow) for more than `AGAIN_MAX_LEN` bytes.
+pub fn dump_kind_ab(out: &mut Out, pfx: &str, kind: Kind, bytes: &[u8]) -> Option<PassAb> {
     if bytes.len() > AGAIN_MAX_LEN {
         dump_kind(out, pfx, kind, bytes);
         return None;
     }
     let mut a = Out::new();
     let mut b = Out::new();
-    let mut c = Out::new();
     let b_skipped = {
         let mut runs = [Run::new(&mut a, false, false), Run::new(&mut b, false, true)];
         dump_runs(pfx, kind, bytes, &mut runs);
         runs[1].skipped
     };
-    dump_runs(pfx, kind, bytes, &mut [Run::new(&mut c, true, false)]);
     out.buf.push_str(&a.buf);
-    let mut verdict = "true".to_string();
-    for (name, other, skipped) in [("B", &b, b_skipped), ("C", &c, false)] {
+    Some(PassAb {
+        a: a.buf,
+        b: b.buf,
+        b_skipped,
+    })
+}
+
+/// Second half: pass C runs the steps last-to-first on an object freshly parsed from the same
+/// slice; hands back the value of the `again_same` key (B and C compared with pass A as sets of
+/// lines). The caller decides what happens between the two halves: a `parse` request makes its
+/// shifted dumps there, so that the first and the last parse of the request both read the
+/// long-lived receive buffer (PROTOCOL.md §7).
+pub fn again_verdict(ab: PassAb, pfx: &str, kind: Kind, bytes: &[u8]) -> String {
+    let mut c = Out::new();
+    dump_runs(pfx, kind, bytes, &mut [Run::new(&mut c, true, false)]);
+    for (name, other, skipped) in [("B", &ab.b, ab.b_skipped), ("C", &c.buf, false)] {
         if skipped {
             continue;
         }
-        if let Some(key) = first_set_diff_key(&a.buf, &other.buf) {
-            verdict = format!("false:{name}:{key}");
-            break;
+        if let Some(key) = first_set_diff_key(&ab.a, other) {
+            return format!("false:{name}:{key}");
         }
     }
-    Some(verdict)
+    "true".to_string()
+}
+
+/// Both halves in a row: the dump (pass A) is printed, the value of `again_same` handed back;
+/// `None` (no key) for more than `AGAIN_MAX_LEN` bytes.
+pub fn dump_kind_verdict(out: &mut Out, pfx: &str, kind: Kind, bytes: &[u8]) -> Option<String> {
+    let ab = dump_kind_ab(out, pfx, kind, bytes)?;
+    Some(again_verdict(ab, pfx, kind, bytes))
 }
 
 /// `dump_kind_verdict` followed by the key `P.again_same`.
